@@ -1,15 +1,721 @@
-//! C18 — not built yet.
+//! C18 — commands are spawned with exactly the configured program and arguments.
+//!
+//! Bounded-exhaustive enumeration in three legs, all on the real code:
+//!
+//!  * inspect  — `Command::to_spawnable()` for every `Program::Exec` with an argument vector of
+//!               length <= 3 over the 12 tokens below (x 3 program names) and every
+//!               `Program::Shell` {options <= 2} x {program_option} x {command} x {args <= 2},
+//!               each x {plain, grouped, session, grouped+session}; the argv the OS would get
+//!               (`as_std().get_program()/get_args()`) and the group/session wrappers are read
+//!               back. No process is created.
+//!  * spawn    — the same kind of commands really spawned through a supervisor `Job` (no child
+//!               factory installed) with `src/bin/c18_helper.rs` as the program / the shell. The
+//!               helper reports the argv bytes it received, its pid, pgid, sid, cwd and one
+//!               environment variable. A sync / async spawn hook sets cwd and the variable.
+//!  * cli      — `args_from(argv)` + `interpret_command_args` for `-n`, `--shell=none`,
+//!               `--shell=<words>`, default shell, x every `--wrap-process` spelling, x every word
+//!               vector; the resulting `Command` goes through `to_spawnable()` again.
+//!
+//! Reference model (written from the property statement and the CLI help text, see `model_argv`,
+//! `model_placement`, `model_cli`): exec => [program] ++ args, unchanged; shell => [shell] ++
+//! options ++ [program option]? ++ [command] ++ args; session => sid == pid (and pgid == pid),
+//! grouped => pgid == pid with the session inherited, plain => both inherited; the CLI joins the
+//! command words with one space for a shell and passes them through unchanged without one.
+//!
+//! Deviations from DESIGN.md section 7: the `KillOnDrop` wrapper is not asserted (the statement
+//! does not speak about it); the helper is a second binary of this package (src/bin), found next
+//! to the running executable; nothing is asserted about cwd / environment when no hook is set
+//! (the statement only speaks about changes made by the hook).
+
+use std::{
+	borrow::Cow,
+	ffi::OsString,
+	os::unix::ffi::OsStrExt,
+	path::{Path, PathBuf},
+	sync::{Arc, Mutex},
+	time::Duration,
+};
+
 use dex::orch::Tier;
-use serde_json::Value;
+use process_wrap::tokio::{ProcessGroup, ProcessSession};
+use serde::{Deserialize, Serialize};
+use serde_json::{json, Value};
+use watchexec_supervisor::{
+	command::{Command, Program, Shell, SpawnOptions},
+	job::start_job,
+};
 
-use crate::common::EnumOut;
+use crate::common::{par_map, EnumOut, Scratch};
 
-pub fn replay(_input: &Value) -> Vec<(String, String)> {
-	vec![]
+const TOK: [&str; 12] = ["", " ", "a b", "'", "\"", "$HOME", "*", "\n", "é", "-c", "--", "x"];
+/// subset used where the quick tier cannot afford all 12 (covers: empty, whitespace, quote, glob)
+const TOK_Q: [usize; 6] = [0, 2, 3, 5, 6, 7];
+const PROBE_VAR: &str = "C18_PROBE";
+const PROBE_VAL: &str = "v a=l \"u\u{e9}$X*\n'";
+const HELPER_MARK: &str = "<helper>";
+const WORKDIR_NAME: &str = "w d \u{e9}";
+
+// ---------------------------------------------------------------------------------------------
+// configurations
+
+#[derive(Clone, Debug, PartialEq, Serialize, Deserialize)]
+#[serde(rename_all = "lowercase")]
+enum Spec {
+	Exec { prog: String, args: Vec<String> },
+	Shell { prog: String, options: Vec<String>, program_option: Option<String>, command: String, args: Vec<String> },
 }
 
-pub fn run(_tier: Tier, _seed: u64) -> EnumOut {
-	let mut o = EnumOut::new("not built");
-	o.machinery = Some("check not built yet".into());
-	o
+#[derive(Clone, Copy, Debug, PartialEq, Serialize, Deserialize)]
+struct Opts {
+	grouped: bool,
+	session: bool,
+}
+
+const OPTS4: [Opts; 4] = [
+	Opts { grouped: false, session: false },
+	Opts { grouped: true, session: false },
+	Opts { grouped: false, session: true },
+	Opts { grouped: true, session: true },
+];
+
+#[derive(Clone, Copy, Debug, PartialEq)]
+enum Placement {
+	Plain,
+	Group,
+	Session,
+}
+
+impl Spec {
+	fn mode(&self) -> &'static str {
+		match self {
+			Spec::Exec { .. } => "exec",
+			Spec::Shell { .. } => "shell",
+		}
+	}
+	fn with_prog(&self, p: &str) -> Spec {
+		let mut s = self.clone();
+		match &mut s {
+			Spec::Exec { prog, .. } | Spec::Shell { prog, .. } => *prog = p.to_string(),
+		}
+		s
+	}
+	/// bitmask of the token kinds carried after the program (bit 12 = any other string)
+	fn mask(&self) -> (u32, usize) {
+		let mut strs: Vec<&str> = vec![];
+		let mut m = 0u32;
+		match self {
+			Spec::Exec { args, .. } => strs.extend(args.iter().map(String::as_str)),
+			Spec::Shell { options, program_option, command, args, .. } => {
+				strs.extend(options.iter().map(String::as_str));
+				if program_option.is_some() {
+					m |= 1 << 13;
+				}
+				strs.push(command);
+				m |= 1 << 14;
+				strs.extend(args.iter().map(String::as_str));
+			}
+		}
+		let n = strs.len();
+		for s in strs {
+			m |= TOK.iter().position(|t| *t == s).map_or(1 << 12, |i| 1 << i);
+		}
+		(m, n)
+	}
+}
+
+// ---------------------------------------------------------------------------------------------
+// reference model
+
+/// What the child must receive as argv, from the property statement.
+fn model_argv(s: &Spec) -> Vec<Vec<u8>> {
+	let b = |x: &String| x.as_bytes().to_vec();
+	match s {
+		Spec::Exec { prog, args } => std::iter::once(b(prog)).chain(args.iter().map(b)).collect(),
+		Spec::Shell { prog, options, program_option, command, args } => std::iter::once(b(prog))
+			.chain(options.iter().map(b))
+			.chain(program_option.iter().map(b))
+			.chain(std::iter::once(b(command)))
+			.chain(args.iter().map(b))
+			.collect(),
+	}
+}
+
+/// `session` implies `grouped` (SpawnOptions docs).
+fn model_placement(o: Opts) -> Placement {
+	if o.session {
+		Placement::Session
+	} else if o.grouped {
+		Placement::Group
+	} else {
+		Placement::Plain
+	}
+}
+
+#[derive(Clone, Debug, Serialize, Deserialize)]
+struct CliCase {
+	/// "-n" | "--shell=none" | "--shell=<words>" | "default"
+	mode: String,
+	/// "default" | "group" | "session" | "none" | "no-process-group"
+	wrap: String,
+	words: Vec<String>,
+}
+
+/// The command the CLI must build, from the help text of COMMAND, --shell, -n and --wrap-process.
+/// `None` = this environment leaves the case unspecified ($SHELL with whitespace / empty).
+fn model_cli(c: &CliCase, env_shell: Option<&str>) -> Option<(Spec, Opts)> {
+	let opts = match c.wrap.as_str() {
+		"default" | "group" => Opts { grouped: true, session: false },
+		"session" => Opts { grouped: false, session: true },
+		_ => Opts { grouped: false, session: false },
+	};
+	let shell_line: Option<String> = match c.mode.as_str() {
+		"-n" | "--shell=none" => None,
+		"default" => {
+			let s = env_shell.unwrap_or("sh");
+			if s.is_empty() || s == "none" || s.contains(|ch: char| ch.is_whitespace()) {
+				return None;
+			}
+			Some(s.to_string())
+		}
+		m => Some(m.strip_prefix("--shell=")?.to_string()),
+	};
+	let spec = match shell_line {
+		None => Spec::Exec { prog: c.words[0].clone(), args: c.words[1..].to_vec() },
+		Some(line) => {
+			let mut w = line.split_whitespace().map(str::to_string);
+			Spec::Shell {
+				prog: w.next()?,
+				options: w.collect(),
+				program_option: Some("-c".into()),
+				command: c.words.join(" "),
+				args: vec![],
+			}
+		}
+	};
+	Some((spec, opts))
+}
+
+// ---------------------------------------------------------------------------------------------
+// real code: construction and observation
+
+fn build(spec: &Spec, o: Opts) -> Command {
+	let program = match spec {
+		Spec::Exec { prog, args } => Program::Exec { prog: PathBuf::from(prog), args: args.clone() },
+		Spec::Shell { prog, options, program_option, command, args } => Program::Shell {
+			shell: Shell {
+				prog: PathBuf::from(prog),
+				options: options.clone(),
+				program_option: program_option.as_ref().map(|p| Cow::Owned(OsString::from(p))),
+			},
+			command: command.clone(),
+			args: args.clone(),
+		},
+	};
+	Command { program, options: SpawnOptions { grouped: o.grouped, session: o.session, ..Default::default() } }
+}
+
+struct Seen {
+	argv: Vec<Vec<u8>>,
+	group_wrap: bool,
+	session_wrap: bool,
+}
+
+fn observe(cmd: &Command) -> Seen {
+	let w = cmd.to_spawnable();
+	let std = w.command().as_std();
+	let argv = std::iter::once(std.get_program().as_bytes().to_vec()).chain(std.get_args().map(|a| a.as_bytes().to_vec())).collect();
+	Seen { argv, group_wrap: w.has_wrap::<ProcessGroup>(), session_wrap: w.has_wrap::<ProcessSession>() }
+}
+
+fn show(v: &[Vec<u8>]) -> String {
+	format!("{:?}", v.iter().map(|a| String::from_utf8_lossy(a).into_owned()).collect::<Vec<_>>())
+}
+
+/// how an argv differs from the expected one (stable, small classification)
+fn differ(expected: &[Vec<u8>], actual: &[Vec<u8>]) -> Option<&'static str> {
+	if expected == actual {
+		return None;
+	}
+	Some(if actual.len() > expected.len() {
+		"split"
+	} else if actual.len() < expected.len() {
+		"merged"
+	} else {
+		let (mut a, mut b) = (expected.to_vec(), actual.to_vec());
+		a.sort();
+		b.sort();
+		if a == b {
+			"reordered"
+		} else {
+			"altered"
+		}
+	})
+}
+
+fn check_seen(layer: &str, spec: &Spec, o: Opts, seen: &Seen, v: &mut Vec<(String, String)>) {
+	let want = model_argv(spec);
+	if let Some(how) = differ(&want, &seen.argv) {
+		v.push((format!("C18/{layer}/{}/argv-{how}", spec.mode()), format!("expected argv {} but the command carries {}", show(&want), show(&seen.argv))));
+	}
+	let (ok, what) = match model_placement(o) {
+		Placement::Plain => (!seen.group_wrap && !seen.session_wrap, "plain"),
+		Placement::Group => (seen.group_wrap && !seen.session_wrap, "grouped"),
+		Placement::Session => (seen.session_wrap, "session"),
+	};
+	if !ok {
+		v.push((
+			format!("C18/{layer}/wrap/{what}"),
+			format!("options {o:?}: process-group wrapper = {}, session wrapper = {}", seen.group_wrap, seen.session_wrap),
+		));
+	}
+}
+
+fn inspect(spec: &Spec, o: Opts) -> Vec<(String, String)> {
+	let mut v = vec![];
+	check_seen("inspect", spec, o, &observe(&build(spec, o)), &mut v);
+	v
+}
+
+// ---------------------------------------------------------------------------------------------
+// real spawn
+
+#[derive(Clone, Copy, Debug, PartialEq, Serialize, Deserialize)]
+#[serde(rename_all = "lowercase")]
+enum Hook {
+	None,
+	Sync,
+	Async,
+}
+
+struct Ids {
+	pgid: i64,
+	sid: i64,
+}
+
+fn my_ids() -> Ids {
+	let stat = std::fs::read_to_string("/proc/self/stat").unwrap_or_default();
+	let tail = stat.rsplit_once(')').map(|(_, t)| t.to_string()).unwrap_or_default();
+	let f: Vec<&str> = tail.split_ascii_whitespace().collect();
+	let num = |i: usize| f.get(i).and_then(|s| s.parse::<i64>().ok()).unwrap_or(-2);
+	Ids { pgid: num(2), sid: num(3) }
+}
+
+fn helper_path() -> Result<PathBuf, String> {
+	let me = std::env::current_exe().map_err(|e| format!("current_exe: {e}"))?;
+	let p = me.parent().unwrap_or(Path::new(".")).join("c18_helper");
+	if p.is_file() {
+		Ok(p)
+	} else {
+		Err(format!("helper binary {} not found (build the whole h-enum package)", p.display()))
+	}
+}
+
+fn bytes_of(v: &Value) -> Option<Vec<u8>> {
+	v.as_array().map(|a| a.iter().map(|x| x.as_u64().unwrap_or(0) as u8).collect())
+}
+
+/// Spawn one command for real through a Job; Err = machinery problem (not a verdict).
+async fn spawn_case(spec: &Spec, o: Opts, hook: Hook, casedir: &Path, helper: &Path, me: &Ids) -> Result<(Vec<(String, String)>, Value), String> {
+	let _ = std::fs::remove_dir_all(casedir);
+	let wd = casedir.join(WORKDIR_NAME);
+	std::fs::create_dir_all(&wd).map_err(|e| format!("mkdir: {e}"))?;
+	let link = casedir.join("h");
+	std::os::unix::fs::symlink(helper, &link).map_err(|e| format!("symlink: {e}"))?;
+	let spec = spec.with_prog(link.to_str().ok_or("non-utf8 scratch path")?);
+	let want = model_argv(&spec);
+
+	let errors: Arc<Mutex<Vec<String>>> = Arc::default();
+	let (job, task) = start_job(Arc::new(build(&spec, o)));
+	{
+		let errors = errors.clone();
+		job.set_error_handler(move |e| errors.lock().unwrap().push(format!("{:?}", e)));
+	}
+	match hook {
+		Hook::None => {}
+		Hook::Sync => {
+			let wd = wd.clone();
+			job.set_spawn_hook(move |c, _| {
+				c.command_mut().current_dir(&wd).env(PROBE_VAR, PROBE_VAL);
+			});
+		}
+		Hook::Async => {
+			let wd = wd.clone();
+			job.set_spawn_async_hook(move |c, _| {
+				c.command_mut().current_dir(&wd).env(PROBE_VAR, PROBE_VAL);
+				Box::new(async {})
+			});
+		}
+	}
+	let run = async {
+		job.start().await;
+		job.to_wait().await;
+		job.delete_now().await;
+		let _ = task.await;
+	};
+	if tokio::time::timeout(Duration::from_secs(30), run).await.is_err() {
+		return Err(format!("real spawn of {spec:?} did not finish within 30 s"));
+	}
+
+	let mut v = vec![];
+	let mode = spec.mode();
+	let dump = std::fs::read_to_string(casedir.join("dump.json")).ok().and_then(|s| serde_json::from_str::<Value>(&s).ok());
+	let Some(d) = dump else {
+		v.push((
+			format!("C18/spawn/{mode}/no-report"),
+			format!("the helper was not run as {} (spawn errors: {:?})", show(&want), errors.lock().unwrap()),
+		));
+		let _ = std::fs::remove_dir_all(casedir);
+		return Ok((v, Value::Null));
+	};
+	let got: Vec<Vec<u8>> = d["argv"].as_array().map(|a| a.iter().filter_map(bytes_of).collect()).unwrap_or_default();
+	if let Some(how) = differ(&want, &got) {
+		v.push((format!("C18/spawn/{mode}/argv-{how}"), format!("expected the child to receive {} but it received {}", show(&want), show(&got))));
+	}
+	let (pid, pgid, sid) = (d["pid"].as_i64().unwrap_or(-1), d["pgid"].as_i64().unwrap_or(-1), d["sid"].as_i64().unwrap_or(-1));
+	let (ok, what) = match model_placement(o) {
+		Placement::Plain => (pgid == me.pgid && sid == me.sid, "plain"),
+		Placement::Group => (pgid == pid && sid == me.sid, "grouped"),
+		Placement::Session => (sid == pid && pgid == pid, "session"),
+	};
+	if !ok {
+		v.push((
+			format!("C18/spawn/placement/{what}"),
+			format!("options {o:?}: child pid {pid} pgid {pgid} sid {sid}; parent pgid {} sid {}", me.pgid, me.sid),
+		));
+	}
+	if hook != Hook::None {
+		let h = if hook == Hook::Sync { "hook-sync" } else { "hook-async" };
+		let cwd = bytes_of(&d["cwd"]).unwrap_or_default();
+		let want_cwd = std::fs::canonicalize(&wd).unwrap_or(wd.clone());
+		if cwd != want_cwd.as_os_str().as_bytes() {
+			v.push((format!("C18/spawn/{h}/cwd"), format!("hook set cwd {:?}, child ran in {:?}", want_cwd, String::from_utf8_lossy(&cwd))));
+		}
+		let probe = bytes_of(&d["probe"]);
+		if probe.as_deref() != Some(PROBE_VAL.as_bytes()) {
+			v.push((
+				format!("C18/spawn/{h}/env"),
+				format!("hook set {PROBE_VAR}={PROBE_VAL:?}, child saw {:?}", probe.map(|p| String::from_utf8_lossy(&p).into_owned())),
+			));
+		}
+	}
+	let _ = std::fs::remove_dir_all(casedir);
+	let seen = json!({
+		"argv": got.iter().skip(1).map(|a| String::from_utf8_lossy(a).into_owned()).collect::<Vec<_>>(),
+		"pgid_is_pid": pgid == pid, "sid_is_pid": sid == pid, "pgid_inherited": pgid == me.pgid, "sid_inherited": sid == me.sid,
+		"cwd": bytes_of(&d["cwd"]).map(|c| String::from_utf8_lossy(&c).rsplit('/').next().unwrap_or("").to_string()),
+		"probe": bytes_of(&d["probe"]).map(|p| String::from_utf8_lossy(&p).into_owned()),
+	});
+	Ok((v, seen))
+}
+
+// ---------------------------------------------------------------------------------------------
+// CLI
+
+fn cli_argv(c: &CliCase, dir: &Path) -> Vec<OsString> {
+	let d = dir.as_os_str().to_os_string();
+	let mut a: Vec<OsString> = vec!["watchexec".into(), "--project-origin".into(), d.clone(), "--workdir".into(), d.clone(), "-w".into(), d];
+	match c.mode.as_str() {
+		"default" => {}
+		m => a.push(m.into()),
+	}
+	match c.wrap.as_str() {
+		"default" => {}
+		"no-process-group" => a.push("--no-process-group".into()),
+		w => a.push(format!("--wrap-process={w}").into()),
+	}
+	a.push("--".into());
+	a.extend(c.words.iter().map(OsString::from));
+	a
+}
+
+async fn cli_case(c: &CliCase, dir: &Path) -> Vec<(String, String)> {
+	let env_shell = std::env::var("SHELL").ok();
+	let Some((spec, o)) = model_cli(c, env_shell.as_deref()) else { return vec![] };
+	let mut v = vec![];
+	let argv = cli_argv(c, dir);
+	let cmd = match watchexec_cli::verif::args_from(argv.clone()).await {
+		Ok(args) => match watchexec_cli::verif::interpret_command_args(&args) {
+			Ok(cmd) => cmd,
+			Err(e) => {
+				v.push((format!("C18/cli/{}/rejected", spec.mode()), format!("{argv:?}: {e}")));
+				return v;
+			}
+		},
+		Err(e) => {
+			v.push((format!("C18/cli/{}/rejected", spec.mode()), format!("{argv:?}: {e}")));
+			return v;
+		}
+	};
+	let seen = observe(&cmd);
+	check_seen("cli", &spec, o, &seen, &mut v);
+	for x in &mut v {
+		x.1 = format!("{argv:?}: {}", x.1);
+	}
+	v
+}
+
+// ---------------------------------------------------------------------------------------------
+// enumeration
+
+/// all vectors of length <= max over the given token indices
+fn vectors(idx: &[usize], max: usize) -> Vec<Vec<String>> {
+	let mut out: Vec<Vec<String>> = vec![vec![]];
+	let mut layer: Vec<Vec<String>> = vec![vec![]];
+	for _ in 0..max {
+		let mut next = vec![];
+		for v in &layer {
+			for i in idx {
+				let mut w = v.clone();
+				w.push(TOK[*i].to_string());
+				next.push(w);
+			}
+		}
+		out.extend(next.iter().cloned());
+		layer = next;
+	}
+	out
+}
+
+#[derive(Clone)]
+enum Work {
+	/// one Exec spec, all four option combinations
+	InspectExec(Spec),
+	/// shell options + program option fixed; inner loop over command x args x options
+	InspectShell { options: Vec<String>, program_option: Option<String>, args_tokens: Vec<usize>, args_max: usize },
+	Spawn(Spec, Opts, Hook),
+	Cli(CliCase),
+}
+
+fn shuffle<T>(v: &mut [T], seed: u64) {
+	let mut s = seed ^ 0x9E37_79B9_7F4A_7C15;
+	for i in (1..v.len()).rev() {
+		s = s.wrapping_mul(6364136223846793005).wrapping_add(1442695040888963407);
+		v.swap(i, ((s >> 33) as usize) % (i + 1));
+	}
+}
+
+fn bump(out: &mut EnumOut, k: &str) {
+	let n = out.extra.get(k).and_then(Value::as_u64).unwrap_or(0) + 1;
+	out.extra.insert(k.to_string(), json!(n));
+}
+
+fn spawn_input(spec: &Spec, o: Opts, hook: Hook) -> Value {
+	json!({"layer": "spawn", "spec": spec.with_prog(HELPER_MARK), "opts": o, "hook": hook})
+}
+
+pub fn replay(input: &Value) -> Vec<(String, String)> {
+	let bad = |m: &str| vec![("C18/replay/bad-input".to_string(), m.to_string())];
+	match input["layer"].as_str().unwrap_or("") {
+		"inspect" => {
+			let (Ok(spec), Ok(o)) = (serde_json::from_value::<Spec>(input["spec"].clone()), serde_json::from_value::<Opts>(input["opts"].clone())) else {
+				return bad("spec/opts");
+			};
+			inspect(&spec, o)
+		}
+		"spawn" => {
+			let (Ok(spec), Ok(o), Ok(hook)) = (
+				serde_json::from_value::<Spec>(input["spec"].clone()),
+				serde_json::from_value::<Opts>(input["opts"].clone()),
+				serde_json::from_value::<Hook>(input["hook"].clone()),
+			) else {
+				return bad("spec/opts/hook");
+			};
+			let helper = match helper_path() {
+				Ok(h) => h,
+				Err(e) => return vec![("C18/replay/machinery".into(), e)],
+			};
+			let scratch = Scratch::new("c18r");
+			let rt = tokio::runtime::Builder::new_current_thread().enable_all().build().expect("runtime");
+			match rt.block_on(spawn_case(&spec, o, hook, &scratch.path().join("c"), &helper, &my_ids())) {
+				Ok((v, _)) => v,
+				Err(e) => vec![("C18/replay/machinery".into(), e)],
+			}
+		}
+		"cli" => {
+			let Ok(c) = serde_json::from_value::<CliCase>(input["case"].clone()) else { return bad("case") };
+			let scratch = Scratch::new("c18r");
+			let rt = tokio::runtime::Builder::new_current_thread().enable_all().build().expect("runtime");
+			rt.block_on(cli_case(&c, scratch.path()))
+		}
+		_ => bad("layer"),
+	}
+}
+
+pub fn run(tier: Tier, seed: u64) -> EnumOut {
+	let rule = "a case is non-trivial when the command carries at least one string after the program; distinct by (leg, exec/shell, placement, hook, number of strings, set of token kinds present, program option present)";
+	let helper = match helper_path() {
+		Ok(h) => h,
+		Err(e) => {
+			let mut o = EnumOut::new(rule);
+			o.machinery = Some(e);
+			return o;
+		}
+	};
+	let thorough = tier == Tier::Thorough;
+	let all: Vec<usize> = (0..TOK.len()).collect();
+	let mut work: Vec<Work> = vec![];
+
+	// inspect / exec: all vectors <= 3 over 12 tokens x 3 program names
+	for prog in ["/bin/echo", "a b", "\u{e9}"] {
+		for args in vectors(&all, 3) {
+			work.push(Work::InspectExec(Spec::Exec { prog: prog.to_string(), args }));
+		}
+	}
+	// inspect / shell
+	let (sh_tokens, progopts): (Vec<usize>, Vec<Option<String>>) =
+		if thorough { (all.clone(), vec![Some("-c".into()), None, Some("/C".into())]) } else { (TOK_Q.to_vec(), vec![Some("-c".into()), None]) };
+	for options in vectors(&sh_tokens, 2) {
+		for po in &progopts {
+			work.push(Work::InspectShell { options: options.clone(), program_option: po.clone(), args_tokens: sh_tokens.clone(), args_max: 2 });
+		}
+	}
+	// real spawn / exec: every vector of length <= 2 (thorough: <= 3)
+	let placements3 = [OPTS4[0], OPTS4[1], OPTS4[2]];
+	for args in vectors(&all, if thorough { 3 } else { 2 }) {
+		let n = args.len();
+		let spec = Spec::Exec { prog: HELPER_MARK.into(), args };
+		for o in if thorough { &OPTS4[..] } else { &placements3[..] } {
+			work.push(Work::Spawn(spec.clone(), *o, Hook::Sync));
+			if thorough || n <= 1 {
+				work.push(Work::Spawn(spec.clone(), *o, Hook::None));
+				work.push(Work::Spawn(spec.clone(), *o, Hook::Async));
+			}
+		}
+	}
+	// real spawn / shell (the helper plays the shell): options <= 1, args <= 1, every command token
+	let sp_tokens: Vec<usize> = if thorough { all.clone() } else { vec![0, 2, 6, 7] };
+	for options in vectors(&sp_tokens, 1) {
+		for po in [Some("-c".to_string()), None] {
+			for command in TOK {
+				for args in vectors(&sp_tokens, 1) {
+					let plain = options.is_empty() && args.is_empty();
+					let spec = Spec::Shell { prog: HELPER_MARK.into(), options: options.clone(), program_option: po.clone(), command: command.to_string(), args };
+					for o in placements3 {
+						work.push(Work::Spawn(spec.clone(), o, Hook::Sync));
+						if thorough || plain {
+							work.push(Work::Spawn(spec.clone(), o, Hook::None));
+							work.push(Work::Spawn(spec.clone(), o, Hook::Async));
+						}
+					}
+				}
+			}
+		}
+	}
+	// CLI
+	let modes = ["-n", "--shell=none", "--shell=bash", "--shell=bash -x", "--shell=zsh -x -o shwordsplit", "--shell=bash  -x", "default"];
+	let wraps = ["default", "group", "session", "none", "no-process-group"];
+	for words in vectors(&all, if thorough { 3 } else { 2 }).into_iter().filter(|w| !w.is_empty()) {
+		for mode in modes {
+			for wrap in wraps {
+				work.push(Work::Cli(CliCase { mode: mode.into(), wrap: wrap.into(), words: words.clone() }));
+			}
+		}
+	}
+
+	shuffle(&mut work, seed);
+	let scratch = Scratch::new("c18");
+	let me = my_ids();
+	let threads = std::env::var("VERIF_WORKERS").ok().and_then(|s| s.parse().ok()).unwrap_or(16);
+	let mut out = par_map(&work, threads, |chunk, ti| {
+		let mut out = EnumOut::new(rule);
+		let rt = tokio::runtime::Builder::new_current_thread().enable_all().build().expect("runtime");
+		let tdir = scratch.path().join(format!("t{ti}"));
+		let _ = std::fs::create_dir_all(&tdir);
+		let mark = |out: &mut EnumOut, leg: &str, spec: &Spec, o: Opts, hook: Hook| {
+			let (m, n) = spec.mask();
+			if n > 0 {
+				out.nontrivial_mark((leg, spec.mode(), o.grouped, o.session, hook as u8, n, m));
+			}
+		};
+		for w in chunk {
+			match w {
+				Work::InspectExec(spec) => {
+					for o in OPTS4 {
+						out.states += 1;
+						out.evaluations += 1;
+						bump(&mut out, "inspect_exec_cases");
+						let v = inspect(spec, o);
+						mark(&mut out, "inspect", spec, o, Hook::None);
+						for (k, d) in v {
+							out.violate(k, d, json!({"layer": "inspect", "spec": spec, "opts": o}));
+						}
+					}
+				}
+				Work::InspectShell { options, program_option, args_tokens, args_max } => {
+					let argsv = vectors(args_tokens, *args_max);
+					for command in TOK {
+						for args in &argsv {
+							let spec = Spec::Shell {
+								prog: "/bin/sh".into(),
+								options: options.clone(),
+								program_option: program_option.clone(),
+								command: command.to_string(),
+								args: args.clone(),
+							};
+							for o in OPTS4 {
+								out.states += 1;
+								out.evaluations += 1;
+								bump(&mut out, "inspect_shell_cases");
+								let v = inspect(&spec, o);
+								mark(&mut out, "inspect", &spec, o, Hook::None);
+								for (k, d) in v {
+									out.violate(k, d, json!({"layer": "inspect", "spec": spec, "opts": o}));
+								}
+							}
+						}
+					}
+				}
+				Work::Spawn(spec, o, hook) => {
+					out.states += 1;
+					out.evaluations += 1;
+					bump(&mut out, "processes_spawned");
+					match rt.block_on(spawn_case(spec, *o, *hook, &tdir.join("c"), &helper, &me)) {
+						Ok((v, seen)) => {
+							mark(&mut out, "spawn", spec, *o, *hook);
+							let pick = match spec {
+								Spec::Exec { args, .. } => *hook == Hook::Sync && o.grouped && !o.session && args.len() == 2 && args[0] == "a b" && args[1] == "*",
+								Spec::Shell { options, program_option, command, args, .. } => {
+									*hook == Hook::Async && o.session && options.is_empty() && program_option.is_some() && command == "$HOME" && args.is_empty()
+								}
+							};
+							if pick {
+								out.sample(json!({"leg": "spawn", "spec": spec, "opts": o, "hook": hook, "child_reported": seen, "violations": v.len()}));
+							}
+							for (k, d) in v {
+								out.violate(k, d, spawn_input(spec, *o, *hook));
+							}
+						}
+						Err(e) => out.machinery = Some(e),
+					}
+				}
+				Work::Cli(c) => {
+					out.states += 1;
+					out.evaluations += 1;
+					bump(&mut out, "cli_cases");
+					let v = rt.block_on(cli_case(c, &tdir));
+					if let Some((spec, o)) = model_cli(c, std::env::var("SHELL").ok().as_deref()) {
+						mark(&mut out, "cli", &spec, o, Hook::None);
+						if v.is_empty() && c.words.len() == 2 && c.words[0] == "x" && c.words[1] == "a b" && c.wrap == "default" && (c.mode == "-n" || c.mode == "--shell=bash -x") {
+							out.sample(json!({"leg": "cli", "case": c, "expected_argv": model_argv(&spec).iter().map(|a| String::from_utf8_lossy(a).into_owned()).collect::<Vec<_>>(), "result": "match"}));
+						}
+					} else {
+						bump(&mut out, "cli_cases_unspecified_by_environment");
+					}
+					for (k, d) in v {
+						out.violate(k, d, json!({"layer": "cli", "case": c}));
+					}
+				}
+			}
+		}
+		out
+	});
+	out.rule = rule.to_string();
+	out.assumptions = vec![
+		"Linux: pid / pgid / sid read by the child from /proc/self/stat".into(),
+		"strings are UTF-8 (the Command API takes String); NUL cannot occur in an argument".into(),
+		format!("default-shell CLI cases use $SHELL={:?} of the checking process", std::env::var("SHELL").ok()),
+	];
+	let shell = Spec::Shell { prog: "sh".into(), options: vec!["-x".into()], program_option: Some("-c".into()), command: "echo $HOME".into(), args: vec!["--".into(), "a b".into()] };
+	out.sample(json!({"leg": "inspect", "spec": shell, "expected_argv": model_argv(&shell).iter().map(|a| String::from_utf8_lossy(a).into_owned()).collect::<Vec<_>>(), "violations": inspect(&shell, OPTS4[1]).len()}));
+	out
 }
